@@ -1,10 +1,70 @@
+/-
+  Props.C03 — kvgraph (MODEL `Grip.C03.step`) refines the abstract last-write-wins graph store
+  (SPEC `Grip.C03.Spec.specStep`), for every history of operations.
+
+  The refinement relation `Refines` and the side condition `NoReadd` are defined in
+  `GripProofs/Lemmas/C03Defs.lean`.  `Refines s a` says: graph keys ↔ `a.graphs`; vertex keys ↔
+  `a.getV` (label and data); edge records ↔ `a.getE` (at most one record per edge id, key
+  components = from/to/label of the record); every src/dst key ↔ an edge record; no duplicate
+  keys; stamps and clock equal; label fields of existing graphs registered; every live element has
+  its label-index entry and term key (the index may hold stale extras: the reads filter them).
+
+  Open finding C03-edge-readd: re-adding a live edge id with different endpoints or label leaves
+  two edge records in kvgraph (and in the MODEL).  The full-strength refinement is therefore false;
+  it is proved as `…_partial` under the decidable side condition `NoReadd`, and its negation is
+  proved on the concrete witness history (`edge_readd_witness`).
+-/
 import Grip.Model.C03
 import Grip.Spec.C03
-namespace Grip.Props.C03
-open Grip.C03
+import GripProofs.Lemmas.C03Del
 
-/-- placeholder obligation replaced below as the refinement proofs land -/
-theorem touch_changes_stamp (s : KState) (g : String) : (s.touch g).stamp g = some (s.clock + 1) := by
-  simp [KState.touch, KState.stamp]
+namespace Grip.Props.C03
+open Grip Grip.C03 Grip.C03.Spec
+
+/-- The empty store represents the empty abstract graph store. -/
+theorem refines_init : Refines {} {} := by
+  refine ⟨?_, rfl, rfl, by simp⟩
+  constructor <;> simp [Lemmas.KeysNodup, KV.get, AG.getV, AG.getE, edgeAt]
+
+/-- One operation.  PARTIAL: holds under `NoReadd a op`, which
+    (1) excludes the region of the open finding C03-edge-readd (a valid edge of an addE/bulk batch
+        re-using the id of a live edge, or of an earlier valid edge of the batch, with different
+        from/to/label), where the full statement is false (`edge_readd_witness`); and
+    (2) for `addGraph g` with a valid name assumes `GoodName g` (the first dot-component of
+        `g.v.label` / `g.e.label` is `g`), a fact about `String.splitOn` on dot-free names that is
+        true for every valid name but not proved in Lean.
+    What is missing for full strength: (1) a repair of kvgraph's insertEdge, (2) that string lemma. -/
+theorem step_refines_partial {s : KState} {a : AG} (h : Refines s a) (op : Op) (hop : NoReadd a op) :
+    Refines (step s op).1 (specStep a op).1 ∧ (step s op).2 = (specStep a op).2 := by
+  cases op with
+  | addGraph g => exact Lemmas.addGraph_refines h g hop
+  | delGraph g => exact Lemmas.delGraph_refines h g
+  | addV g vs =>
+    have key : ∀ (vs : List VertexIn) (a0 : AG), noReaddAll g a0 (vs.map .v) = true := by
+      intro vs
+      induction vs with
+      | nil => intro _; rfl
+      | cons v vs ih => intro a0; simp only [List.map_cons, noReaddAll, okElem, Bool.true_and]; exact ih _
+    exact Lemmas.addElems_refines h g (vs.map .v) (fun _ => key vs a)
+  | addE g es => exact Lemmas.addElems_refines h g (es.map .e) hop
+  | bulk g xs => exact Lemmas.addElems_refines h g xs hop
+  | delV g id => exact Lemmas.delV_refines h g id
+  | delE g eid => exact Lemmas.delE_refines h g eid
+
+/-- Histories.  PARTIAL for the same two reasons as `step_refines_partial`: the side condition is
+    required of every operation of the history, at the abstract state reached before it. -/
+theorem history_refines_partial (ops : List Op) :
+    ∀ {s : KState} {a : AG}, Refines s a → NoReaddHist a ops → Refines (run s ops) (specRun a ops) := by
+  induction ops with
+  | nil => intro s a h _; exact h
+  | cons o os ih =>
+    intro s a h hh
+    simp only [run, specRun, List.foldl_cons]
+    exact ih (step_refines_partial h o hh.1).1 hh.2
+
+/-- From the empty store. -/
+theorem history_refines_init_partial (ops : List Op) (hh : NoReaddHist {} ops) :
+    Refines (run {} ops) (specRun {} ops) :=
+  history_refines_partial ops refines_init hh
 
 end Grip.Props.C03
